@@ -54,7 +54,7 @@ def plan(tier):
     p.append(('corr_correlate', 30 * m))
     p.append(('merge', 60 * m))
     p.append(('qtop', 40 * m))
-    p.append(('errors', 60 * m))
+    p.append(('errors', 80 * m))
     p.append(('flag', 40 * m))
     return p
 
@@ -262,7 +262,7 @@ def case_errors(ctx, rng):
     wtab = weight_table(rng, ctx.tier, ens='A')
     w = gen.table_to_obs(pe, wtab)
     n0 = sorted(wtab)[0]
-    row = int(rng.integers(0, 9))
+    row = int(rng.integers(0, 10))
     if row == 0:      # o has a configuration that w lacks
         otab = obs_on(rng, wtab, 'random', replica_subset=False)
         extra = max(wtab[n0]) + int(rng.integers(1, 4))
@@ -288,6 +288,20 @@ def case_errors(ctx, rng):
         btab[n0][max(cfgs) + 7] = 0.5       # same length, different configuration numbers
         b = gen.table_to_obs(pe, btab)
         expect_raises(ctx, lambda: pe.correlate(a, b), 'correlate:different-configuration-lists')
+    elif row == 9:    # correlate: same length, same first and last configuration, different interior
+        cfgs = sorted(set(int(c) for c in rng.choice(np.arange(2, 60), size=int(rng.integers(8, 20)), replace=False)) | {1, 64})
+        other = list(cfgs)
+        free = sorted(set(range(2, 64)) - set(cfgs))
+        k = int(rng.integers(1, len(cfgs) - 1))
+        other[k] = int(rng.choice(free))
+        other = sorted(other)
+        atab = {n0: {c: float(rng.normal()) for c in cfgs}}
+        btab = {n0: {c: float(rng.normal()) for c in other}}
+        a = gen.table_to_obs(pe, atab)
+        b = gen.table_to_obs(pe, btab)
+        expect_raises(ctx, lambda: pe.correlate(a, b), 'correlate:different-interior-configurations')
+        ca = pe.Corr([a, a])
+        expect_raises(ctx, lambda: ca.correlate(b), 'Corr.correlate:different-interior-configurations')
     elif row == 5:    # correlate: different chains
         a = gen.table_to_obs(pe, wtab)
         b = gen.table_to_obs(pe, {n + 'x': d for n, d in wtab.items()})
